@@ -337,7 +337,7 @@ class CopyEscape(CopySuite):
     """C14"""
     name = "copyescape"
     rule = ("(source tree, destination tree, src path, dst path) with symlinks to sentinel directories/files outside both roots planted at every component "
-            "position (absolute, '..'-laden, dangling, looping), source arguments ending in '..', follow-links on/off, always-replace on/off, chown/mode/times options; oracle: full snapshot (inode, mode, owner, "
+            "position (absolute, '..'-laden, dangling, looping), source arguments ending in '..', follow-links on/off, always-replace on/off, chown/mode/times options, include/exclude patterns selecting entries below a directory that the destination has as a symlink; oracle: full snapshot (inode, mode, owner, "
             "times, bytes, xattrs) of everything outside the destination root unchanged, no sentinel bytes copied; non-trivial = >= 1 planted link, distinct")
 
     def gen(self, rng, tier):
@@ -406,6 +406,25 @@ class CopyEscape(CopySuite):
                     cs = bytes.fromhex(a["src"]).split(b"/")
                     cs[-1] = rng.choice([b"*", cs[-1][:1] + b"*"])
                     a["src"] = hx(b"/".join(cs))
+            if rng.random() < 0.12:
+                # include/exclude patterns that select an entry BELOW a directory which the destination has as a symlink to a sentinel
+                # directory: the parent is created on demand, the conflict check must not go through the link
+                dn = rng.choice([b"D", b"a", b"sub"])
+                leaf, tgt = rng.choice([(b"g", b"/outside/d"), (b"f", b"/outside"), (b"g", b"../outside/d"), (b"secret", b"/srcout")])
+                tree = [e for e in tree if not (bytes.fromhex(e["p"]) == dn or bytes.fromhex(e["p"]).startswith(dn + b"/"))]
+                tree += [{"p": hx(dn), "t": "dir", "uid": 0, "gid": 0, "mt": gen.MTIMES[0], "mode": 0o755},
+                         {"p": hx(dn + b"/" + leaf), "t": "file", "size": 3, "uid": 0, "gid": 0, "mt": gen.MTIMES[1], "mode": 0o644}]
+                tree.sort(key=lambda e: gen.pathkey(bytes.fromhex(e["p"])))
+                dst = [e for e in dst if not (bytes.fromhex(e["p"]) == dn or bytes.fromhex(e["p"]).startswith(dn + b"/"))]
+                dst.append({"p": hx(dn), "t": "symlink", "ln": hx(tgt), "uid": 0, "gid": 0, "mt": gen.MTIMES[0], "mode": 0o777})
+                dst.sort(key=lambda e: gen.pathkey(bytes.fromhex(e["p"])))
+                a = {"src": hx(b"/"), "dst": hx(b"/"), "cdc": True}
+                if rng.random() < 0.7:
+                    a["include"] = [hx(rng.choice([dn + b"/" + leaf, dn + b"/*", b"*/" + leaf]))]
+                else:
+                    a["exclude"] = [hx(dn), hx(b"!" + dn + b"/" + leaf)]
+                if rng.random() < 0.6:
+                    a["replace"] = True
             ops.append(self.mk(tree, dst, a))
         return ops
 
